@@ -169,6 +169,7 @@ def opensQid (s : St) : Bool := (step s '"').1 == .qid
 
 /-- Scanner state after a correctly quoted value (independent of the value). -/
 def atomSafeStep (env : Env) (a : Args) (cur : Option (List Char)) (s : St) : Atom → Option St
+  | .cli .validated .raw _ => if s == .str then some .str else none   -- validated names have no ' (see `ArgsOK`)
   | .cli _ .raw _ => none
   | .cli _ .quoteLit _ => if opensStr s then some .strQ else none
   | .cli _ .quoteIdent _ => if opensQid s then some .qidQ else none
@@ -239,6 +240,70 @@ def sameLens (a b : Args) (s : Site) : Bool :=
   s.pieces.all fun p => match p with
     | .atom _ => true
     | .list _ name _ _ => ((lookup a.lists name).getD []).length == ((lookup b.lists name).getD []).length
+
+/-- What the validator guarantees about a validated value spliced raw: it contains no `'`
+    (`'` is on gripql.validate's blacklist; `validate_rejects_quote` re-checks that on the table). -/
+def atomOK (a : Args) (cur : Option (List Char)) : Atom → Bool
+  | .cli .validated .raw e => !(((evalExpr a cur e).getD []).contains '\'')
+  | _ => true
+
+def pieceOK (a : Args) : Piece → Bool
+  | .atom x => atomOK a none x
+  | .list _ name _ elem => ((lookup a.lists name).getD []).all fun x => elem.all (atomOK a (some x.toList))
+
+/-- The arguments respect what `validated` means, for this site. -/
+def ArgsOK (a : Args) (s : Site) : Bool := s.pieces.all (pieceOK a)
+
+/-! ### canonical environments and arguments (used to state the table theorems) -/
+
+def exprRoot : Expr → Option (Bool × String)      -- (is a list element, name)
+  | .param n => some (false, n)
+  | .elem l => some (true, l)
+  | .splitN e _ _ _ => exprRoot e
+  | .replace e _ _ => exprRoot e
+  | .opaque _ => none
+
+def atomSrv : Atom → List String
+  | .srv n => [n]
+  | _ => []
+
+def atomParams : Atom → List (Src × String)
+  | .cli src _ e => match exprRoot e with
+    | some (false, n) => [(src, n)]
+    | _ => []
+  | _ => []
+
+def Site.srvNames (s : Site) : List String :=
+  s.pieces.flatMap fun p => match p with
+    | .atom a => atomSrv a
+    | .list _ _ _ elem => elem.flatMap atomSrv
+
+def Site.paramNames (s : Site) : List (Src × String) :=
+  s.pieces.flatMap fun p => match p with
+    | .atom a => atomParams a
+    | .list _ _ _ elem => elem.flatMap atomParams
+
+def Site.listNames (s : Site) : List (Src × String) :=
+  s.pieces.flatMap fun p => match p with
+    | .atom (.cli src _ e) => (match exprRoot e with | some (true, n) => [(src, n)] | _ => [])
+    | .atom _ => []
+    | .list src name _ _ => [(src, name)]
+
+/-- Every server value is the identifier `t`. -/
+def Site.identEnv (s : Site) : Env := s.srvNames.map fun n => (n, "t")
+
+/-- Two-element lists, every string `v src`. -/
+def Site.argsWith (s : Site) (v : Src → String) : Args :=
+  { params := s.paramNames.map fun (src, n) => (n, v src),
+    lists := s.listNames.map fun (src, n) => (n, [v src, v src]) }
+
+def benignStr : Src → String := fun _ => "a:a"
+
+/-- A string a hostile client may send: a quote for unvalidated values; a tab (which
+    gripql.validate lets through) for validated graph names. -/
+def hostileStr : Src → String
+  | .validated => "a\tb"
+  | _ => "a' b:a' b"
 
 /-! ### gripql.ValidateGraphName (blacklist + prefix rule), parameters from the generated table -/
 
